@@ -177,6 +177,20 @@ def _corpus():
                 self.submodules.bank = csr_bus.CSRBank([self.a, self.b], bus=self.bus)
         d = T(); return d, set(d.bus.flatten()) | {d.b.status}
     out.append(("csrbank", bank))
+    def memclash(with_mem_signal=False):
+        """user signals named like the helper registers the memory template creates (<mem>_adr<n>, <mem>_dat<n>), a memory and a signal with equal names,
+        a signal named like a suffixed name"""
+        class T(Module):
+            def __init__(self):
+                self.specials.mem = mem = Memory(8, 16, name="mem")
+                p0 = mem.get_port(write_capable=True, mode=WRITE_FIRST); p1 = mem.get_port(has_re=True, mode=READ_FIRST); self.specials += p0, p1
+                self.mem_adr0 = Signal(3, name_override="mem_adr0"); self.mem_dat1 = Signal(5, name_override="mem_dat1"); self.o = Signal(8)
+                self.mem_s = Signal(2, name_override="mem") if with_mem_signal else Signal(2, name_override="other"); self.x = Signal(4, name_override="mem_adr0_1")
+                self.ports = [p0.adr, p0.dat_w, p0.we, p0.dat_r, p1.adr, p1.re, p1.dat_r]
+                self.sync += [self.mem_adr0.eq(self.mem_adr0 + 1), self.mem_dat1.eq(self.mem_dat1 + p1.dat_r), self.mem_s.eq(self.mem_s + 1), self.x.eq(self.x + 1)]
+                self.comb += self.o.eq(p0.dat_r ^ self.mem_adr0 ^ self.mem_dat1 ^ self.mem_s ^ self.x)
+        d = T(); return d, set(d.ports) | {d.o}
+    out.append(("memory-helper-name-clash", memclash)); out.append(("memory-name-clash", lambda: memclash(True)))
     return out
 
 def _convert(d, ios, name):
@@ -264,6 +278,24 @@ def c_name_dict_bounded():
             n1 = nd1.get(s)
             if s.name_override is None and (not n1 or not re.fullmatch(r"[A-Za-z_][A-Za-z0-9_$]*", n1)): bad.append(("illegal/empty", depth, reps, same, n1))
             if nd1.get(s) != nd2.get(s): bad.append(("order dependent", depth, reps, same))
+    # explicit back-trace shapes (the tracer's output is just a list of (name, number) pairs): every set of 2..3 signals whose hierarchical paths
+    # are words over {a, b} of length 1..3 below one top - includes a signal whose path is a PREFIX of another's (signal tx next to sub-module tx)
+    # and equal paths with different numbers
+    words = [w for n in (1, 2, 3) for w in itertools.product("ab", repeat=n)]
+    shapes2 = [c for k in (2, 3) for c in itertools.combinations(words, k)]
+    for shape in shapes2:
+        for numbered in (False, True):
+            sigs = []
+            for j, w in enumerate(shape):
+                sg = Signal(); sg.backtrace = [("top", 0)] + [(x, (j if numbered and i == len(w) - 1 else 0)) for i, x in enumerate(w)]; sigs.append(sg)
+            evals += 1
+            nd1 = namer._build_signal_name_dict(set(sigs)); nd2 = namer._build_signal_name_dict(set(reversed(sigs)))
+            for sg in sigs:
+                n1 = nd1.get(sg)
+                if not n1 or not re.fullmatch(r"[A-Za-z_][A-Za-z0-9_$]*", n1): bad.append(("illegal/empty", shape, numbered, n1))
+                if n1 != nd2.get(sg): bad.append(("order dependent", shape, numbered))
+            names = [nd1.get(sg) for sg in sigs]
+            if len(set(names)) != len(names): bad.append(("two signals with different paths share a dictionary name", shape, numbered, names))
     return dict(results=[res("ens.name_dict[depth<=3, reps<=2]", "bounded", BOUNDED_OK if not bad and evals else (VIOLATED if bad else VACUOUS), 0, "small-scope enumeration through the real function", evaluations=evals, info=str(bad[:3]))],
                 functions=["litex.gen.fhdl.namer._build_signal_name_dict (bounded)"], samples=[dict(bounded="_build_signal_name_dict", evaluations=evals)])
 
